@@ -417,6 +417,11 @@ def run_unit(unit_name, repo='/repo', rlimit=None, twins=True, extra_args=(), ta
         props = label_props(label)
         if props is None:
             props = (u.fns.get(fn, {}).get('props') if fn else None) or u.props
+            # an unlabelled arithmetic / index / callee-precondition obligation is a possible PANIC: charged to C15 wherever
+            # the unit serves C15, also when the function's hint failures are confined to another property by //@props
+            # (seed Z15: a u64 underflow in ZeroCrossing::work was charged to C08 only and C15 said OK)
+            if kind in ('overflow', 'divzero', 'shift', 'precondition') and 'C15' in (u.props or []) and 'C15' not in props:
+                props = list(props) + ['C15']
         if fn is None:
             # failure in prelude proof code (lemma): charge to the whole unit
             fn = '<unit-lemma>'
